@@ -136,6 +136,53 @@ func findFunc(f *ast.File, recv, name string) *ast.FuncDecl {
 	return nil
 }
 
+// funcList: the functions and methods declared in the non-test files of a package directory
+// ("recv.Name" per line, sorted): a new method can change behaviour through an interface
+// (io.ReaderFrom, fmt.Stringer, …) without touching any function the model was written against
+func funcList(dir string) string {
+	ents, err := os.ReadDir(dir)
+	if err != nil {
+		return "<<missing dir>>"
+	}
+	var names []string
+	for _, e := range ents {
+		n := e.Name()
+		if e.IsDir() || !strings.HasSuffix(n, ".go") || strings.HasSuffix(n, "_test.go") {
+			continue
+		}
+		f, err := parser.ParseFile(token.NewFileSet(), filepath.Join(dir, n), nil, 0)
+		if err != nil {
+			names = append(names, "<<parse error: "+n+">>")
+			continue
+		}
+		for _, d := range f.Decls {
+			fd, ok := d.(*ast.FuncDecl)
+			if !ok {
+				continue
+			}
+			recv := ""
+			if fd.Recv != nil && len(fd.Recv.List) > 0 {
+				t := fd.Recv.List[0].Type
+				if st, ok := t.(*ast.StarExpr); ok {
+					t = st.X
+				}
+				if ix, ok := t.(*ast.IndexExpr); ok {
+					t = ix.X
+				}
+				if ix, ok := t.(*ast.IndexListExpr); ok {
+					t = ix.X
+				}
+				if id, ok := t.(*ast.Ident); ok {
+					recv = id.Name
+				}
+			}
+			names = append(names, recv+"."+fd.Name.Name)
+		}
+	}
+	sort.Strings(names)
+	return strings.Join(names, "\n")
+}
+
 func main() {
 	repo := flag.String("repo", "/repo", "repository root")
 	out := flag.String("out", "", "output directory for Generated/*.lean")
@@ -158,6 +205,10 @@ func main() {
 	skel := map[string]string{}
 	for _, t := range targets {
 		p := filepath.Join(*repo, t.File)
+		if strings.HasPrefix(t.Func, "funcs:") {
+			skel[t.Name] = funcList(p)
+			continue
+		}
 		// re-parse per target: skeleton() mutates the AST
 		f, err := parser.ParseFile(fset, p, nil, 0)
 		if err != nil {
